@@ -278,7 +278,9 @@ func (j *jsonReader) getMap() map[string]any {
 	if j.current != nil {
 		return j.current
 	}
-	j.current = j.value[0].(map[string]any)
+	// Anything but an object is not a TTLV item: reported as an item without
+	// tag, type and value (the callers turn that into an error).
+	j.current, _ = j.value[0].(map[string]any)
 	return j.current
 }
 
